@@ -182,6 +182,16 @@ def run_shard(rec, tier, seed, shard, nshards):
                 if grown:
                     for c, h_ in enumerate(src):
                         del h_.thetas[sizes[c]:]
+                if n_chains >= 3:
+                    # chain-major order for any bracketing of combine() over the chains in their order
+                    parts = list(src)
+                    while len(parts) > 1:
+                        i_ = int(rng.integers(0, len(parts) - 1))
+                        parts[i_ : i_ + 2] = [parts[i_].combine(parts[i_ + 1])]
+                    rec.count("concats_by_random_bracketing")
+                    rec.check(len(parts[0].thetas) == len(cat.thetas) and all(a is b for a, b in zip(parts[0].thetas, cat.thetas)) and int(parts[0].n_thetas) == sum(sizes), "C10/concat/not-chain-major", "a pairwise (tree-shaped) reduction of the chains with combine() does not give the chain-major collection", w)
+                    for c, h_ in enumerate(src):
+                        del h_.thetas[sizes[c]:]
                 if n_chains >= 2:
                     cat2 = ThetaHolder.concat(list(src))
                     rec.check(len(cat2.thetas) == len(cat.thetas) and all(a is b for a, b in zip(cat2.thetas, cat.thetas)), "C10/concat/not-repeatable", lambda: "a second concat of the same collections gives %d samples, the first gave %d" % (len(cat2.thetas), len(cat.thetas)), w)
